@@ -7,6 +7,7 @@ import (
 	"net"
 	"sync"
 	"sync/atomic"
+	"time"
 
 	"verifharness/internal/vh"
 )
@@ -17,6 +18,8 @@ type Action struct {
 	Write []byte // bytes to write (may be nil)
 	Cuts  []int  // optional segmentation of Write
 	Close bool   // close the connection afterwards
+	// Delay is slept before writing (workloads whose trigger is a connection age).
+	Delay time.Duration
 	// NoRead (early answers only): after writing, never read another byte of
 	// this connection; it is held open until the peer or Shutdown closes it.
 	NoRead bool
@@ -128,6 +131,9 @@ func (o *Origin) closeConn(c net.Conn) {
 }
 
 func (o *Origin) perform(c net.Conn, a Action) bool {
+	if a.Delay > 0 {
+		time.Sleep(a.Delay)
+	}
 	prev := 0
 	for _, cut := range append(append([]int(nil), a.Cuts...), len(a.Write)) {
 		if cut <= prev || cut > len(a.Write) {
